@@ -221,6 +221,9 @@ var propClient = &kit.Prop[ClientCase]{
 }
 
 func TestClientBytes(t *testing.T) {
+	if kit.Race() {
+		t.Skip("the race shard runs the concurrent check only")
+	}
 	kit.Assume("client byte streams are fed to one long-lived proxy per process; only process survival and continued service are asserted for them")
 	propClient.Check(t, kit.N(400, 1500))
 }
@@ -233,6 +236,9 @@ func FuzzClientBytes(f *testing.F) {
 	}
 	for _, b := range hostile {
 		f.Add(b)
+	}
+	if kit.Race() {
+		f.Skip("the race shard runs the concurrent check only")
 	}
 	f.Fuzz(func(t *testing.T, input []byte) {
 		if len(input) > 1<<16 {
@@ -345,6 +351,9 @@ var propHello = &kit.Prop[HelloCase]{
 }
 
 func TestClientTLSSessions(t *testing.T) {
+	if kit.Race() {
+		t.Skip("the race shard runs the concurrent check only")
+	}
 	propHello.Enumerate(t, func(yield func(HelloCase) bool) {
 		for _, tg := range helloTargets {
 			for _, h := range helloHosts {
@@ -474,6 +483,9 @@ var propRep = &kit.Prop[RepCase]{
 }
 
 func TestClientRepetition(t *testing.T) {
+	if kit.Race() {
+		t.Skip("the race shard runs the concurrent check only")
+	}
 	propRep.Enumerate(t, func(yield func(RepCase) bool) {
 		for u := range repUnits {
 			n, cut := 600000, kit.N(40000, 200000)
